@@ -135,15 +135,22 @@ def run(rep, tier, seed, replay=None):
             rep.violation("counterexample", dict(harness="mv_life", program=p, expected=unlisted[0], all=unlisted[:4], trace=res.trace[-40:],
                                                  note="real OS-thread races: `--replay` repeats the program 20 times"))
             reported = True
-    # the known rare livelock F20 explains a handful of hangs with work stealing; the deadlock F18 (fixed) hung 40% of them
+    # a rare residual crash with work stealing is a recorded finding (F22, about 1 of 20 000 programs); the broken run-queue lock
+    # (F19/F20, fixed) crashed or hung 3 of 1 000, the deadlock F18 (fixed) hung 40%
+    crashed = [(p, res) for p, res in zip(progs, results) if p[0].split()[2] == "1" and res.result.startswith("result crashed")]
+    nws = sum(1 for p in progs if p[0].split()[2] == "1")
+    rep.cov["work_stealing_crashes"] = len(crashed)
+    if len(crashed) > max(2, nws // 50) and not reported:
+        rep.violation("counterexample", dict(harness="mv_life", program=crashed[0][0], trace=crashed[0][1].trace[-30:],
+                                             expected="%d of %d programs with work stealing crashed: far above the rate of the recorded rare crash (F22)" % (len(crashed), nws)))
+        reported = True
     wsp = [(p, res) for p, res in zip(progs, results) if p[0].split()[2] == "1"]
     hung = [(p, res) for p, res in wsp if res.result.startswith("result hung")]
     rep.cov["work_stealing_programs"] = len(wsp)
     rep.cov["work_stealing_hangs"] = len(hung)
     if len(hung) > max(3, len(wsp) // 20) and not reported:
         rep.violation("counterexample", dict(harness="mv_life", program=hung[0][0], trace=hung[0][1].trace[-30:],
-                                             expected="%d of %d programs with work stealing hung: far above the rate of the known rare livelock (F20); "
-                                                      "idle vCPUs deadlock each other" % (len(hung), len(wsp))))
+                                             expected="%d of %d programs with work stealing hung" % (len(hung), len(wsp))))
         reported = True
     rep.count(nev)
     rep.cov["events"] = nev
